@@ -30,6 +30,7 @@ from typing import Any
 
 import numpy as np
 
+from harness import c11_ext
 from harness import common
 from harness.common import F
 from harness.common import Result
@@ -1542,6 +1543,8 @@ def run(ctx) -> Result:
     check_ds_cases(res, [c for c in corpus if c["kind"] == "ds"])
     check_pb_cases(res, [c for c in corpus if c["kind"] == "pb"])
     check_cache_cases(res, [c for c in corpus if c["kind"] == "cache"])
+    c11_ext.check_pbd_cases(res, [c for c in corpus if c["kind"] == "pbd"])
+    c11_ext.check_jac_cases(res, [c for c in corpus if c["kind"] == "jac"])
     res.count("corpus", len(corpus))
     n_db = 3000 if ctx.thorough else 260
     n_ds = 2000 if ctx.thorough else 200
@@ -1567,6 +1570,8 @@ def run(ctx) -> Result:
     check_ds_cases(res, [gen_ds_case(rng, exact=False) for _ in range(n_ds // 4)])
     check_pb_cases(res, [gen_pb_case(rng) for _ in range(400 if ctx.thorough else 60)])
     check_cache_cases(res, [gen_cache_case(rng) for _ in range(400 if ctx.thorough else 60)])
+    c11_ext.check_pbd_cases(res, [c11_ext.gen_pbd_case(rng) for _ in range(1500 if ctx.thorough else 220)])
+    c11_ext.check_jac_cases(res, [c11_ext.gen_jac_case(rng) for _ in range(1000 if ctx.thorough else 150)])
     return res
 
 
@@ -1609,6 +1614,10 @@ def replay(path: str) -> int:
         for k, m in bad:
             print("ORACLE FAILS:", k, m)
         return 1 if bad else 0
+    if case["kind"] == "pbd":
+        return c11_ext.replay_pbd(case)
+    if case["kind"] == "jac":
+        return c11_ext.replay_jac(case)
     if case["kind"] == "cache":
         obs = cache_observe(case)
         for k, m in obs["bad"]:
